@@ -14,13 +14,14 @@ pub fn spec(prop: &str) -> Option<CheckSpec> {
         "C11" => Some(CheckSpec {
             prop: "C11",
             level: "fault_enumeration",
-            rule: "Each run is one plan: a source byte string delivered through update_reader / &mut dyn Read / io::copy by a scripted reader (short reads, Interrupted, hard errors, early EOF, junk beyond n; random scripts also contain storms of 2..500 consecutive Interrupted results). Per base plan the fault kinds {Interrupted, Err, 1-byte read, early EOF} are enumerated at every call index 0..48 of the script, plus one random faulty script and the fault-free base. Oracle: Ok => reader reached EOF and the hasher equals the one-shot hash of exactly the bytes yielded; Err => the injected error (kind and identity) and the hasher equals the one-shot hash of the bytes yielded before it; count() equals bytes yielded; no read after EOF/error. File half: update_mmap, update_mmap_rayon and update_reader(File) on scratch files of lengths around the 16 KiB threshold must all equal the one-shot hash. distinct_nontrivial = distinct (partial-chunk class x stack popcount x alignment x mode x adapter) hasher state shapes reached.",
+            rule: "Each run is one plan: a source byte string delivered through update_reader / &mut dyn Read / io::copy by a scripted reader (short reads, Interrupted, hard errors, early EOF, junk beyond n; random scripts also contain storms of 2..500 consecutive Interrupted results). Per base plan the fault kinds {Interrupted, Err, 1-byte read, early EOF} are enumerated at every call index 0..48 of the script, plus one random faulty script and the fault-free base. Oracle: Ok => reader reached EOF and the hasher equals the one-shot hash of exactly the bytes yielded; Err => the injected error (kind and identity) and the hasher equals the one-shot hash of the bytes yielded before it; count() equals bytes yielded; no read after EOF/error. File half: update_mmap, update_mmap_rayon and update_reader(File) on scratch files of lengths around the 16 KiB threshold must all equal the one-shot hash (update_mmap_rayon in pools of 1, 2 and 4 threads); one sparse file of 2^32 + k bytes is hashed by path and compared with update() on the same bytes. distinct_nontrivial = distinct (partial-chunk class x stack popcount x alignment x mode x adapter) hasher state shapes reached.",
             families: vec![
                 Family { name: "c11-reader", gen: gen::c11_reader, quick: 120_000, thorough: 3_000_000, judge: Judge::Exec },
                 Family { name: "c11-file", gen: gen::c11_file, quick: 3_000, thorough: 60_000, judge: Judge::Exec },
                 Family { name: "c11-special", gen: gen::c11_special, quick: 600, thorough: 20_000, judge: Judge::Exec },
                 Family { name: "c11-bigwrite", gen: gen::c11_bigwrite, quick: 1_500, thorough: 40_000, judge: Judge::Exec },
                 Family { name: "c11-syscall", gen: gen::c11_syscall, quick: 320, thorough: 10_000, judge: Judge::Exec },
+                Family { name: "c11-hugefile", gen: gen::c11_hugefile, quick: 1, thorough: 3, judge: Judge::Exec },
             ],
             real: REAL_RUST.to_vec(),
             stubs: vec!["the reader behind update_reader is the simulator's SimReader (the seam under test)"],
@@ -86,12 +87,12 @@ pub fn spec(prop: &str) -> Option<CheckSpec> {
             level: "exploration",
             rule: "Exact replay across configurations: every plan of the C02 (histories), C03 (XOF/seek), C08 (scripted join) and C11 (reader) families is executed once per SIMD level this build can run (Portable, SSE2, SSE4.1, AVX2, AVX-512 forced through the detect() hook, plus real detection); the per-operation result digests must be identical in every configuration, and each execution is also judged by its own oracles. The check script repeats this for the default (assembly), prefer_intrinsics and pure builds and compares the per-run digests between builds. distinct_nontrivial = distinct state shapes + schedule signatures.",
             families: vec![
-                Family { name: "c04-c02", gen: gen::c04_hist, quick: 12_000, thorough: 600_000, judge: Judge::CompareLevels },
-                Family { name: "c04-c03", gen: gen::c04_xof, quick: 20_000, thorough: 600_000, judge: Judge::CompareLevels },
-                Family { name: "c04-c08", gen: gen::c04_join, quick: 4_000, thorough: 200_000, judge: Judge::CompareLevels },
-                Family { name: "c04-c11", gen: gen::c04_reader, quick: 8_000, thorough: 300_000, judge: Judge::CompareLevels },
-                Family { name: "c04-c09giant", gen: gen::c04_giant, quick: 5_000, thorough: 300_000, judge: Judge::CompareLevels },
-                Family { name: "c04-c09", gen: gen::c04_cluster, quick: 2_000, thorough: 100_000, judge: Judge::CompareLevels },
+                Family { name: "c04-c02", gen: gen::c04_hist, quick: 12_000, thorough: 200_000, judge: Judge::CompareLevels },
+                Family { name: "c04-c03", gen: gen::c04_xof, quick: 20_000, thorough: 200_000, judge: Judge::CompareLevels },
+                Family { name: "c04-c08", gen: gen::c04_join, quick: 4_000, thorough: 70_000, judge: Judge::CompareLevels },
+                Family { name: "c04-c11", gen: gen::c04_reader, quick: 8_000, thorough: 100_000, judge: Judge::CompareLevels },
+                Family { name: "c04-c09giant", gen: gen::c04_giant, quick: 5_000, thorough: 100_000, judge: Judge::CompareLevels },
+                Family { name: "c04-c09", gen: gen::c04_cluster, quick: 2_000, thorough: 35_000, judge: Judge::CompareLevels },
             ],
             real: REAL_RUST.to_vec(),
             stubs: vec![],
@@ -133,10 +134,11 @@ pub fn spec(prop: &str) -> Option<CheckSpec> {
         "C06" => Some(CheckSpec {
             prop: "C06",
             level: "exploration",
-            rule: "Each run drives the C library (c/blake3.c + dispatcher + every kernel; assembly flavour and C-intrinsics flavour both linked, chosen per hasher) through blake3_hasher_* only: initialiser in {init, init_keyed, init_derive_key, init_derive_key_raw (any bytes, embedded NUL, > 1 chunk)}, updates cut like the C02 delivery scripts (zero-length updates with a dangling pointer included; update_tbb with the simulator as the TBB seam in the tbb family), interleaved finalize(out_len) / finalize_seek(seek, out_len) with the C03 position distribution, reset, struct-copy clones; the CPU feature mask of the run is a random subset of the detected mask (AVX512VL without AVX512F included), or left undefined so that the dispatcher detects the CPU during the first call of the history. Oracle: output = SpecModel S[seek..seek+out_len] = the Rust crate's bytes on the same history; hasher fields unchanged by finalize and by zero-length updates; reset = freshly initialised fields; both derive-key initialisers agree; canaries around every output buffer. distinct_nontrivial = distinct (flavour x state x seek alignment x length class) shapes.",
+            rule: "Each run drives the C library (c/blake3.c + dispatcher + every kernel; assembly flavour and C-intrinsics flavour both linked, chosen per hasher) through blake3_hasher_* only: initialiser in {init, init_keyed, init_derive_key, init_derive_key_raw (any bytes, embedded NUL, > 1 chunk)}, updates cut like the C02 delivery scripts (zero-length updates with a dangling pointer included; update_tbb with the simulator as the TBB seam in the tbb family), interleaved finalize(out_len) / finalize_seek(seek, out_len) with the C03 position distribution, reset, struct-copy clones; the CPU feature mask of the run is a random subset of the detected mask (AVX512VL without AVX512F included), or left undefined so that the dispatcher detects the CPU during the first call of the history. Derive-key contexts are passed from a reused buffer after a decoy of the same length at the same address. One run feeds 2^32 + k bytes in a single blake3_hasher_update call and compares the digest with the Rust crate fed the same bytes in pieces. Oracle: output = SpecModel S[seek..seek+out_len] = the Rust crate's bytes on the same history; hasher fields unchanged by finalize and by zero-length updates; reset = freshly initialised fields; both derive-key initialisers agree; canaries around every output buffer. distinct_nontrivial = distinct (flavour x state x seek alignment x length class) shapes.",
             families: vec![
                 Family { name: "c06", gen: gen::c06, quick: 60_000, thorough: 4_000_000, judge: Judge::Exec },
                 Family { name: "c06-tbb", gen: gen::c06_tbb, quick: 30_000, thorough: 1_000_000, judge: Judge::Exec },
+                Family { name: "c06-hugein", gen: gen::c06_hugein, quick: 1, thorough: 6, judge: Judge::Exec },
             ],
             real: vec!["/repo/c: blake3.c, blake3_dispatch.c, blake3_portable.c, the four unix .S kernels (ca_ flavour) and blake3_{sse2,sse41,avx2,avx512}.c (ci_ flavour), compiled from the working tree by the harness build.rs", "/repo/src (Rust twin)"],
             stubs: vec!["oneTBB parallel_invoke (blake3_tbb.cpp is not compiled; the simulator implements blake3_compress_subtree_wide_join_tbb)"],
@@ -171,7 +173,7 @@ pub fn spec(prop: &str) -> Option<CheckSpec> {
         "C07" => Some(CheckSpec {
             prop: "C07",
             level: "exploration",
-            rule: "What the simulator controls here is the environment of native code: where every caller-visible buffer lives and what surrounds a call. Kernel family: direct calls of every kernel of every flavour the CPU can run - unix assembly (ca_), C intrinsics and portable C (ci_), Windows-GNU assembly assembled for ELF and called through a Win64 trampoline (win_), and the crate's own kernels through Platform - with arguments inside the documented domain (num_inputs 0..2*degree+1, 1 or 16 blocks per input, counters near 2^32 and 2^64, any flag bytes, 1..33 XOF blocks); each buffer (inputs, input-pointer array, key/cv, block, out) sits flush before or after a PROT_NONE page or at a misaligned interior position, canaries fill the rest of its pages; assembly and C kernels are entered through a trampoline that plants per-call pseudo-random sentinels in the callee-saved registers of the ABI (SysV: rbx rbp r12-r15; Win64 additionally rdi rsi xmm6-xmm15) and compares them, rsp and DF afterwards. API families: the C06 histories and Rust reader/XOF histories with guard-placed inputs, outputs and (C) hasher objects. Huge-output family: one blake3_hasher_finalize(_seek) with out_len = 2^32 + {0..200} into a virtual window (a 2 MiB memfd mapped 2049 times, inaccessible page behind it), judged by the monitors only. Monitors: SIGSEGV/SIGBUS/SIGILL (reported through a crash record, replayed in a child process), canaries, register sentinels. distinct_nontrivial = distinct (kernel x input count x block count x placement) shapes + API state shapes.",
+            rule: "What the simulator controls here is the environment of native code: where every caller-visible buffer lives and what surrounds a call. Kernel family: direct calls of every kernel of every flavour the CPU can run - unix assembly (ca_), C intrinsics and portable C (ci_), Windows-GNU assembly assembled for ELF and called through a Win64 trampoline (win_), and the crate's own kernels through Platform - with arguments inside the documented domain (num_inputs 0..2*degree+1, 1 or 16 blocks per input, counters near 2^32 and 2^64, any flag bytes, 1..33 XOF blocks); each buffer (inputs, input-pointer array, key/cv, block, out) sits flush before or after a PROT_NONE page or at a misaligned interior position, canaries fill the rest of its pages; assembly and C kernels are entered through a trampoline that plants per-call pseudo-random sentinels in the callee-saved registers of the ABI (SysV: rbx rbp r12-r15; Win64 additionally rdi rsi xmm6-xmm15) and compares them, rsp and DF afterwards. API families: the C06 histories and Rust reader/XOF histories with guard-placed inputs, outputs and (C) hasher objects. Huge family: one blake3_hasher_finalize(_seek) with out_len = 2^32 + {0..200} into a virtual window (a 2 MiB memfd mapped 2049 times, inaccessible page behind it), judged by the monitors only; or one blake3_hasher_update with input_len = 2^32 + k from a read-only zero mapping between inaccessible pages, digest compared with the Rust crate fed the same bytes in pieces. Monitors: SIGSEGV/SIGBUS/SIGILL (reported through a crash record, replayed in a child process), canaries, register sentinels. distinct_nontrivial = distinct (kernel x input count x block count x placement) shapes + API state shapes.",
             families: vec![
                 Family { name: "c07-kernels", gen: gen::c07_kernels, quick: 60_000, thorough: 1_500_000, judge: Judge::Exec },
                 Family { name: "c07-c-api", gen: gen::c07_capi, quick: 20_000, thorough: 600_000, judge: Judge::Exec },
